@@ -69,6 +69,30 @@ func ensurePool(t testing.TB) []poolKey {
 			pub := sigref.RSAPublic{N: k.N, E: k.E}
 			pool = append(pool, poolKey{idx: i, bits: bits, std: k, pub: pub, priv: sigref.RSAPrivate{RSAPublic: pub, D: k.D, P: k.Primes[0], Q: k.Primes[1]}})
 		}
+		// one key with primes of different byte lengths (129 / 127 bytes): legal, but never produced
+		// by key generators, so prime-size-dependent slips in key handling would otherwise go unseen
+		detrand.Seed(0xC03_00FF)
+		one := big.NewInt(1)
+		for {
+			pp, err1 := rand.Prime(rand.Reader, 1032)
+			qq, err2 := rand.Prime(rand.Reader, 1016)
+			if err1 != nil || err2 != nil {
+				t.Fatalf("harness: rand.Prime: %v %v", err1, err2)
+			}
+			n := new(big.Int).Mul(pp, qq)
+			d := new(big.Int).ModInverse(big.NewInt(65537), new(big.Int).Mul(new(big.Int).Sub(pp, one), new(big.Int).Sub(qq, one)))
+			if n.BitLen() != 2048 || d == nil {
+				continue
+			}
+			k := &stdrsa.PrivateKey{PublicKey: stdrsa.PublicKey{N: n, E: 65537}, D: d, Primes: []*big.Int{pp, qq}}
+			k.Precompute()
+			if err := k.Validate(); err != nil {
+				t.Fatalf("harness: unbalanced RSA key does not validate: %v", err)
+			}
+			pub := sigref.RSAPublic{N: n, E: 65537}
+			pool = append(pool, poolKey{idx: len(pool), bits: 2048, std: k, pub: pub, priv: sigref.RSAPrivate{RSAPublic: pub, D: d, P: pp, Q: qq}})
+			break
+		}
 	})
 	return pool
 }
